@@ -363,7 +363,7 @@ def read_provenance(dbfile):
     return toks, prov, ports
 
 
-async def run_once(desc, seed=None, K=3, timeout=60.0, gate=None, keep_db=False, slow_ports=(), settle_timeout=30.0):
+async def run_once(desc, seed=None, K=3, timeout=60.0, gate=None, keep_db=False, slow_ports=(), settle_timeout=30.0, order=None):
     """Execute `desc` for real.  Returns dict(events, result|error, outputs, token_lists, steps, provenance...)."""
     import random
 
@@ -413,6 +413,34 @@ async def run_once(desc, seed=None, K=3, timeout=60.0, gate=None, keep_db=False,
                 return await orig_deploy(self, deployment_config)
             dm.DefaultDeploymentManager.deploy = slow_deploy
             undo.append((dm.DefaultDeploymentManager, "deploy", orig_deploy))
+        driver_task = None
+        if order is not None:
+            # B-env: job completions are parked on gates and released one at a time following the priority list `order`
+            # (a permutation of the job keys taken from the specification's behaviours): whenever the set of parked jobs
+            # has been stable for a moment, the parked job with the highest priority completes.
+            parked, released = {}, set()
+            prio = {(("/" + s0), tagstr(t0)): i for i, (s0, t0) in enumerate(order)}
+
+            async def gate_fn(key):
+                ev = asyncio.Event()
+                parked[key] = ev
+                await ev.wait()
+
+            async def driver():
+                last = None
+                while True:
+                    await asyncio.sleep(0.01)
+                    cur = sorted(k for k in parked if k not in released)
+                    if cur and cur == last:
+                        k = min(cur, key=lambda x: prio.get(x, 10 ** 9))
+                        released.add(k)
+                        rec.ev.append({"ev": "release", "step": k[0], "tag": tagseq(k[1])})
+                        parked[k].set()
+                        last = None
+                    else:
+                        last = cur
+            C["HCommand"].gate = gate_fn
+            driver_task = asyncio.create_task(driver(), name="vh-driver")
         wf, P, realnames = await build_real(ctx, desc, os.path.join(tmp, "work"))
         slow_ids.update(P[p].persistent_id for p in slow_ports if p in P)
         rec.wrap_step_runs(wf)
@@ -429,15 +457,21 @@ async def run_once(desc, seed=None, K=3, timeout=60.0, gate=None, keep_db=False,
         except Exception as e:
             out["result"], out["error"] = None, type(e).__name__
             rec.ev.append({"ev": "raise"})
+        if driver_task is not None:
+            # jobs still parked (e.g. cancelled siblings) are released so that nothing hangs on the harness
+            await asyncio.sleep(0.05)
         # After run() returned or raised the steps that are still running must end by themselves (the model proves
         # EveryStepEnds): give them time, then anything still pending is a dangling task.
         me = asyncio.current_task()
-        others = [t for t in asyncio.all_tasks() if t is not me and not t.done()]
+        others = [t for t in asyncio.all_tasks() if t is not me and not t.done() and t.get_name() != "vh-driver"]
         if others:
             await asyncio.wait(others, timeout=settle_timeout)
         for _ in range(5):
             await asyncio.sleep(0)
-        out["pending_tasks"] = sorted(t.get_name() for t in asyncio.all_tasks() if t is not me and not t.done())
+        if driver_task is not None:
+            driver_task.cancel()
+        out["pending_tasks"] = sorted(t.get_name() for t in asyncio.all_tasks() if t is not me and not t.done() and t.get_name() != "vh-driver")
+        out["order"] = order
         tokval = C["tokval"]
         from streamflow.workflow.token import TerminationToken
         out["steps"] = {n: {"status": s.status.name.lower(), "terminated": s.terminated} for n, s in wf.steps.items()}
